@@ -165,9 +165,10 @@ func H_C12_sched(op, router, entry, target, pre int) {
 	}
 	mutate2 := func(w *world) {
 		switch op {
-		case 0, 1:
+		case 0:
 			w.b.Route(w.b.POST("/z").To(func(req *Request, resp *Response) { w.hits = append(w.hits, "/b/z") }))
 		default:
+			// (also next to Remove: two changes of the container's service list at once - neither may undo the other)
 			w.c.Add(w.extra)
 		}
 	}
